@@ -712,3 +712,88 @@ def linen_transformed_determinism(case, ctx):
           f'(child called {calls}x): a key depends on what was run before')
   nested = any(op['op'] == 'sub' for op in child['ops'])
   ctx.note(labels=[tr, f'calls{calls}'], nontrivial=calls >= 2 and nested)
+
+
+# ----------------------------------------------------------------------------
+# jitted methods in one process: keys depend on the position, not on history
+# ----------------------------------------------------------------------------
+class JDrawer(nn.Module):
+  def __call__(self):
+    return jax.random.key_data(self.make_rng('noise'))
+
+
+def make_jouter(cls_form):
+  """A fresh class (and so a fresh nn.jit trace cache) per history."""
+
+  class JOuter(nn.Module):
+    """A setup-defined child draws keys both through a plain method and
+    through an nn.jit-ed one."""
+
+    def setup(self):
+      self.inner = JDrawer()
+      self.other = JDrawer()
+
+    def peek(self, which):
+      return (self.inner if which == 0 else self.other)()
+
+    def jitted(self):
+      return self.inner(), self.other()
+
+    def program(self, plan):
+      out = []
+      for step in plan:
+        if step == 'j':
+          out.extend(self.jitted())
+        else:
+          out.append(self.peek(step))
+      return out
+
+  if cls_form:
+    return nn.jit(JOuter, methods=['jitted'])
+  JOuter.jitted = nn.jit(JOuter.jitted)
+  return JOuter
+
+
+@clause('linen_jit_history',
+        strategy=lambda: st.tuples(
+            st.lists(st.lists(st.sampled_from([0, 0, 1, 'j']), min_size=1,
+                              max_size=5).filter(lambda p: 'j' in p),
+                     min_size=2, max_size=4),
+            st.booleans(), st.integers(0, 2**16)),
+        quick=120, thorough=5000, quick_shards=4, shrink=False,
+        rule='2-4 programs (sequences of plain draws from two setup-defined '
+        'children and calls of an nn.jit-ed method that draws from both) are '
+        'applied one after the other in one process with the same seed, in the '
+        'given and in the reversed order (each order on a fresh class, i.e. a '
+        'fresh trace cache): a program returns the same keys whatever ran '
+        'before it, and within one program no key is returned twice; '
+        'non-trivial = two programs differ only in the number of plain draws '
+        'before the jitted call')
+def linen_jit_history(case, ctx):
+  plans, cls_form, seed = case
+  plans = [tuple(p) for p in plans]
+  key = jax.random.key(seed)
+  results = {}
+  # the same programs in two different orders, each order on its own fresh
+  # class: what a program returns must not depend on what ran before it
+  for order_name, order in (('given', plans + [plans[0]]),
+                            ('reversed', plans[::-1] + [plans[-1]])):
+    Mod = make_jouter(cls_form)
+    for hi, plan in enumerate(order):
+      with sut('apply'):
+        keys = Mod().apply({}, plan, rngs={'noise': key}, method='program')
+      got = [tuple(np.asarray(k).tolist()) for k in keys]
+      require(len(set(got)) == len(got), lambda: f'program {plan}: a key was '
+              f'returned twice within one apply: {got}')
+      if plan in results:
+        prev = results[plan]
+        require(got == prev[2], lambda: f'program {plan} returned {got} at '
+                f'step {hi} of the {order_name} order and {prev[2]} at step '
+                f'{prev[1]} of the {prev[0]} order: keys depend on what ran '
+                'earlier in the process')
+      else:
+        results[plan] = (order_name, hi, got)
+  nt = any(a != b and len(a) != len(b) and [x for x in a if x == 'j'] ==
+           [x for x in b if x == 'j'] for a in plans for b in plans)
+  ctx.note(labels=['cls-methods' if cls_form else 'decorator',
+                   f'plans{len(plans)}'], nontrivial=nt)
